@@ -424,19 +424,40 @@ def build():
     PB = "joblib/_parallel_backends.py"
     p.models["pool.close"] = lambda i, r, a, k: i.ctx.events.append(("pool.close",))
     p.models["pool.terminate"] = lambda i, r, a, k: i.ctx.events.append(("pool.terminate",))
-    p.models["ThreadingBackend.configure"] = lambda i, r, a, k: i.ctx.events.append(("configure", k.get("n_jobs")))
-    p.models["MultiprocessingBackend.configure"] = lambda i, r, a, k: i.ctx.events.append(("configure", k.get("n_jobs")))
+    def configure_model(i, r, a, k):
+        i.ctx.events.append(("configure", k.get("n_jobs"), dict(k)))
+
+    for bcls in ("ThreadingBackend", "MultiprocessingBackend", "LokyBackend"):
+        p.models[bcls + ".configure"] = configure_model
     p.models["MultiprocessingBackend.reset_batch_stats"] = lambda i, r, a, k: None
-    # stated for the concrete pool backends and resolved through the class hierarchy on every run: an override appearing in a subclass is
+    p.models["executor.terminate"] = lambda i, r, a, k: i.ctx.events.append(("executor.terminate", k.get("kill_workers")))
+    MISSING = Opaque("not-passed", None)
+    p.spec_funcs["configured_with"] = lambda interp, key: [e for e in interp.ctx.events if e[0] == "configure"][0][2].get(key, MISSING)
+    # the settings the Parallel object was configured with at the start of the call (Parallel._initialize_backend passes **self._backend_kwargs):
+    # two representative entries, arbitrary values
+    par_obj = lambda i: Opaque("par", None, n_jobs=INT.fresh(i.ctx, "n_jobs"),
+                               _backend_kwargs=PyDict({"mmap_mode": OneOf(None, STR).fresh(i.ctx, "mmap_mode"), "initializer": Opaque("userfn", None)}))
+    SAME_SETTINGS = "implies(ensure_ready, all(configured_with(k) is self.parallel._backend_kwargs[k] for k in ('mmap_mode', 'initializer')) and configured_with('parallel') is self.parallel)"
+    # stated for the concrete backends and resolved through the class hierarchy on every run: an override appearing in a subclass is
     # then the code that is verified
     for bcls in ("ThreadingBackend", "MultiprocessingBackend"):
         p.add(Contract(
             PB, bcls + ".abort_everything", props=["C04"],
             inline={"terminate"},
-            params=dict(self=ObjOf(bcls, _pool=Opt(OpaqueOf("pool")), parallel=OpaqueOf("par", n_jobs=INT, _backend_kwargs=PyDict({}))), ensure_ready=OneOf(True, False)),
+            params=dict(self=ObjOf(bcls, _pool=Opt(OpaqueOf("pool")), parallel=par_obj), ensure_ready=OneOf(True, False)),
             ensures={"pool_gone_or_replaced": "self._pool is None or self._pool is not old(self._pool)"},
             ensures_body={"reconfigured_iff_ensure_ready": "n_events('configure') == (1 if ensure_ready else 0)",
                           "same_n_jobs": "implies(ensure_ready, ev_named('configure')[0][1] is self.parallel.n_jobs)",
+                          "same_settings_as_the_parallel_object": SAME_SETTINGS,
                           "old_pool_terminated": "implies(old(self._pool) is not None, n_events('pool.terminate') == 1)"},
         ))
+    p.add(Contract(
+        PB, "LokyBackend.abort_everything", props=["C04"],
+        params=dict(self=ObjOf("LokyBackend", _workers=OpaqueOf("executor"), parallel=par_obj), ensure_ready=OneOf(True, False)),
+        ensures={},
+        ensures_body={"reconfigured_iff_ensure_ready": "n_events('configure') == (1 if ensure_ready else 0)",
+                      "same_n_jobs": "implies(ensure_ready, ev_named('configure')[0][1] is self.parallel.n_jobs)",
+                      "same_settings_as_the_parallel_object": SAME_SETTINGS,
+                      "old_workers_killed": "n_events('executor.terminate') == 1 and ev_named('executor.terminate')[0][1] is True"},
+    ))
     return p
